@@ -502,9 +502,96 @@ def run_ifb_case(st: Stats, case):
     st.nontrivial.add(core.digest(inp["case"]))
 
 
+# ---- generic bindings along a chain of type extension ------------------------------------------------
+def build_chain(overrides, adds, order):
+    """t1 <- t2 <- t3.  t1: procedure sp => impl1; generic g => sp.  overrides: subset of {2, 3} that rebind sp;
+    adds: subset of {2, 3} that add a specific sq<k> to the generic.  order: the order of the type definitions."""
+    T = {}
+    impls = ["function impl1(a)\nclass(t1) :: a\ninteger :: impl1\nimpl1 = 1\nend function impl1"]
+    T[1] = ["type t1", "integer :: v", "contains", "procedure :: sp => impl1", "generic :: g => sp", "end type t1"]
+    for k in (2, 3):
+        L = [f"type, extends(t{k - 1}) :: t{k}"]
+        body = []
+        if k in overrides:
+            body.append(f"procedure :: sp => impl{k}")
+            impls.append(f"function impl{k}(a)\nclass(t{k}) :: a\ninteger :: impl{k}\nimpl{k} = {k}\nend function impl{k}")
+        if k in adds:
+            body += [f"procedure :: sq{k} => implq{k}", f"generic :: g => sq{k}"]
+            impls.append(f"function implq{k}(a, x)\nclass(t{k}) :: a\nreal :: x\ninteger :: implq{k}\nimplq{k} = {k}\nend function implq{k}")
+        if body:
+            L += ["contains"] + body
+        L.append(f"end type t{k}")
+        T[k] = L
+    src = ["module chainm", "implicit none"]
+    for k in order:
+        src += T[k]
+    src += ["contains"] + impls + ["end module chainm"]
+    return {"src/chain.f90": "\n".join(src) + "\n"}
+
+
+def expected_chain(overrides, adds):
+    exp = {}
+    for k in (1, 2, 3):
+        owner = max([1] + [o for o in overrides if o <= k])
+        g = {("sp", f"t{owner}", f"impl{owner}")}
+        for a in adds:
+            if a <= k:
+                g.add((f"sq{a}", f"t{a}", f"implq{a}"))
+        exp[f"t{k}"] = sorted(g)
+    return exp
+
+
+def run_chain_case(st: Stats, case):
+    _, overrides, adds, order = case
+    files = build_chain(set(overrides), set(adds), order)
+    r = fordrun.build_fast(files, dict(display=["public", "private", "protected"], proc_internals=True))
+    st.evaluations += 1
+    st.transitions += 1
+    stratum = "type-chain/generic"
+    inp = dict(case=["chain", list(overrides), list(adds), list(order)], files=files)
+    feats = dict(slot="inherited-generic", scope="type-chain", present="", case="", order="".join(map(str, order)), overrides=",".join(map(str, overrides)), adds=",".join(map(str, adds)))
+    st.nontrivial.add(core.digest(inp["case"]))
+    if r.error is not None or "ERROR in file" in r.log or "Error parsing" in r.log:
+        st.violation("ford-failed", stratum, feats, inp, repr(r.error) + r.log[-300:], "parses and correlates")
+        st.stratum(stratum, 1)
+        return
+    from ford.sourceform import FortranBase
+
+    got = {}
+    for t in r.project.modules[0].types:
+        gs = [b for b in t.boundprocs if b.generic and b.name == "g"]
+        rec = set()
+        for gnr in gs:
+            for b in gnr.bindings:
+                if isinstance(b, FortranBase):
+                    tgt = b.bindings[0] if getattr(b, "bindings", None) else None
+                    rec.add((b.name, getattr(b.parent, "name", "?"), getattr(tgt, "name", str(tgt))))
+                else:
+                    rec.add((str(b), "<unresolved>", ""))
+        got[t.name] = sorted(rec) if len(gs) == 1 else f"<{len(gs)} generics named g>"
+    want = {k: [tuple(x) for x in v] for k, v in expected_chain(set(overrides), set(adds)).items()}
+    st.states.add(core.digest(got))
+    bad = 0
+    for tname in sorted(want):
+        if got.get(tname) != want[tname]:
+            bad += 1
+            st.violation("wrong-declaration", stratum, dict(feats, type=tname, expected=str(want[tname]), observed=str(got.get(tname))), inp, {tname: got.get(tname)}, {tname: want[tname]})
+            break
+    st.stratum(stratum, bad)
+
+
+def gen_chain_cases(tier):
+    subsets = [(), (2,), (3,), (2, 3)]
+    for ov in subsets:
+        for ad in subsets:
+            for order in itertools.permutations((1, 2, 3)):
+                yield ("chain", ov, ad, order)
+
+
 def gen_cases(tier):
     yield from gen_sub_cases(tier)
     yield from gen_ifb_cases(tier)
+    yield from gen_chain_cases(tier)
     yield from gen_main_cases(tier)
 
 
@@ -603,6 +690,8 @@ def work(chunk):
             run_sub_case(st, case)
         elif str(case[0]).startswith("ifb:"):
             run_ifb_case(st, case)
+        elif case[0] == "chain":
+            run_chain_case(st, case)
         else:
             run_case(st, case)
     return st
@@ -613,12 +702,20 @@ def replay(path):
 
     core.use_repo()
     rec = json.loads(open(path).read())
-    slot, scope, present, cs, order, *rest = rec["input"]["case"]
     st = Stats()
+    if rec["input"]["case"][0] == "chain":
+        c = rec["input"]["case"]
+        run_chain_case(st, ("chain", tuple(c[1]), tuple(c[2]), tuple(c[3])))
+        print(rec["input"]["files"]["src/chain.f90"])
+        for v in st.violations:
+            print("REPRODUCED", v["clause"], "got", v["observed"], "want", v["expected"])
+        return 1 if st.violations else 0
+    slot, scope, present, cs, order, *rest = rec["input"]["case"]
     if str(slot).startswith("sub:"):
         run_sub_case(st, (slot, scope, tuple(present), cs, order))
     elif str(slot).startswith("ifb:"):
         run_ifb_case(st, (slot, scope, tuple(present), cs, order, rest[0]))
+
     else:
         run_case(st, (slot, scope, tuple(present), cs, order) + ((tuple(rest[0]),) if rest else ()), only_perm=rec["input"].get("order"))
     for f, t in rec["input"]["files"].items():
